@@ -142,6 +142,37 @@ def _sends_result(e, f, c):
 # R-RESPAWN-GUARD
 # ---------------------------------------------------------------------------
 
+def r_exit_nested(e, R):
+    """A worker process may host executors of its own (nested parallelism).  After announcing a clean exit (its pid on the result queue:
+    sentinel, idle time-out, memory-leak exit) the worker must stop them -- the module's exit hook -- before it returns: otherwise the
+    interpreter's exit function joins the nested workers, which wait for work, the exiting worker never terminates and the parent's
+    manager thread is stuck joining it."""
+    a = e.anchors
+    f = a.worker_main
+    g = e.cfg(f)
+    hook = a.atexit_hook.qualname
+    pidnames = {n.targets[0].id for n in func_nodes(f) if isinstance(n, ast.Assign) and isinstance(n.targets[0], ast.Name)
+                and isinstance(n.value, ast.Call) and norm(n.value.func) == "os.getpid"}
+    ann = [n for n in g.nodes for c in calls_in(n) if e.receiver_objs(f, c, ("put",)) & a.resq and c.args
+           and (isinstance(c.args[0], ast.Name) and c.args[0].id in pidnames or norm(c.args[0]) == "os.getpid()")]
+    if not ann:
+        raise AnalysisError("worker: pid announcement not found")
+    hooks = [n for n in g.nodes for c in calls_in(n) if hook in e.callees_of(c)]
+    for n in ann:
+        p_ = g.find_path(n, lambda x: x is g.exit, avoid=hooks, use_exc=False)
+        R.check(p_ is None, "R-EXIT-NESTED", f"worker: after the exit announcement at line {n.lineno} the nested executors are shut down before the worker returns", f.short,
+                f"announce -> return without {hook.split(':')[1]}() [{_exit_kind(g, n)}]",
+                f"after announcing its exit (line {n.lineno}) the worker can return without calling {hook.split(':')[1]}(): an executor created inside this worker keeps its "
+                "own workers waiting, the interpreter's exit function joins them forever, the exiting worker never terminates and the parent's manager thread hangs in join()",
+                e.loc(f, n.ast), g.fmt_path(p_) if p_ else None)
+    R.floor("R-EXIT-NESTED", 2)
+
+
+def _exit_kind(g, n):
+    txt = " ".join(norm(x.ast)[:60].lower() for x in g.nodes if x.kind == "stmt" and x.lineno and n.lineno and 0 <= n.lineno - x.lineno <= 3)
+    return "memory-leak exit" if "leak" in txt else "sentinel / idle time-out exit"
+
+
 # truth of the concurrent.futures.Future state predicates on a future that was submitted and not yet dispatched (state PENDING)
 _FUTURE_PRED_ON_PENDING = {"running": False, "cancelled": False, "done": False}
 
